@@ -8,7 +8,8 @@ Line-protocol operations of the TYPES model (`RF.Types`).
   types.judge <abi> <kind> <real> <tree…>          -> ok | diff:<index>:<tokA>:<tokB>
         `real` = `none` (the rewriter returned nothing: always accepted) or the tokens of the text it
         returned; they are compared with the canonical tokens through the C01 validator (`RF.Tok.firstDiff`
-        with the default configuration: trailing separators, `extern "C"`, empty lists)
+        with the default configuration: trailing separators, `extern "C"`, empty lists; a `,` directly
+        before `>` is removed on both sides first, `dropCommaGt`)
   types.rw <pinned> <abi> <kind> <bad> <tree…>     -> none | toks   the model's rewriter under the oracle
         "every piece fits except those of `bad`" (`_` or pieces joined by `,`; a piece = child indices
         joined by `.`, `-` for the root)
@@ -326,7 +327,7 @@ def handle (op : String) (args : List String) : Option String :=
     let t ← pTree kind ws
     if real == "none" then pure "ok" else
     let real ← RF.Driver.TokEquiv.decToks real
-    match firstDiff {} (t.canon abi) real with
+    match firstDiff {} (dropCommaGt (t.canon abi)) (dropCommaGt real) with
     | none => pure "ok"
     | some (i, x, y) => pure s!"diff:{i}:{RF.Driver.TokEquiv.encOptTok x}:{RF.Driver.TokEquiv.encOptTok y}"
   | "types.rw", pinned :: abi :: kind :: bad :: ws => do
